@@ -413,6 +413,11 @@ func (ex *Exec) invoke(st *State, recv Value, m *types.Func, args []Value, x *ss
 		ex.note("interface method on opaque value treated as pure uninterpreted function: " + name)
 		return ex.opaqueCall(st, name, []*Term{t}, args, x.Type())
 	}
+	if _, oob := recv.(*oobVal); oob {
+		// element read beyond every alternative's length: the bounds check before it makes this path dead; any item will do
+		ex.objSeq++
+		recv = opaqueItem(Fresh("oob", SItem))
+	}
 	iv := ex.normIface(recv.(*IfaceVal))
 	var res Value
 	var heaps []*State
@@ -660,6 +665,55 @@ func (ex *Exec) appendBuiltin(st *State, args []Value, x *ssa.Call) Value {
 		}
 		st.heap[o] = av
 		return &SliceVal{Elem: s.Elem, Alts: []SliceAlt{{C: TTrue, O: o, Off: IntLit(0), Len: total}}}
+	}
+	// several alternatives, each of concrete length: one fresh concrete array per distinct length
+	if c2 {
+		allConc := true
+		for _, al := range s.Alts {
+			if _, ok := al.Len.IntVal(); !ok && al.O != nil {
+				allConc = false
+			}
+		}
+		if allConc {
+			byLen := map[int64][]SliceAlt{}
+			var lens []int64
+			for _, al := range s.Alts {
+				if And(st.pc, al.C) == TFalse {
+					continue
+				}
+				var na int64
+				if al.O != nil {
+					na, _ = al.Len.IntVal()
+				}
+				if _, ok := byLen[na]; !ok {
+					lens = append(lens, na)
+				}
+				byLen[na] = append(byLen[na], al)
+			}
+			res := &SliceVal{Elem: s.Elem}
+			for _, na := range lens {
+				grp := byLen[na]
+				var gc *Term = TFalse
+				sub := &SliceVal{Elem: s.Elem}
+				for _, al := range grp {
+					gc = Or(gc, al.C)
+					sub.Alts = append(sub.Alts, al)
+				}
+				o := ex.freshArr(st, s.Elem, IntLit(na+n2), fmt.Sprintf("append@%s/len%d", ex.pos(x.Pos()), na))
+				av := &ArrVal{E: make([]Value, na+n2)}
+				for i := int64(0); i < na; i++ {
+					av.E[i] = ex.readElem(st, sub, IntLit(i))
+				}
+				for i := int64(0); i < n2; i++ {
+					av.E[na+i] = ex.readElem(st, t, IntLit(i))
+				}
+				st.heap[o] = av
+				res.Alts = append(res.Alts, SliceAlt{C: gc, O: o, Off: IntLit(0), Len: IntLit(na + n2)})
+			}
+			if len(res.Alts) > 0 {
+				return res
+			}
+		}
 	}
 	// symbolic length: new symbolic array; content described pointwise
 	o := ex.newObj("append@"+ex.pos(x.Pos()), OSymArr, s.Elem)
